@@ -429,6 +429,7 @@ func runC08(c *Ctx, r *Report) {
 	c08SharedAppend(c, r, "C08.R14")
 	c08WrapStorage(c, r, "C08.R15")
 	c08PoolReset(c, r, "C08.R16")
+	c08SharedReplacer(c, r, "C08.R17")
 	c08QuicAddr(c, r, "C08.R11")
 	c09R6(c, r, "C08.R12")     // a UDP client never reads another client's datagram: queued datagram records do not alias
 	c17Handle(c, r, "C08.R10") // per-connection state of a handler (the throttle's own limiter) is built per connection, only the handler-wide limiter is shared
@@ -1017,6 +1018,11 @@ func runC09(c *Ctx, r *Report) {
 		return fn.Pkg != nil && fn.Pkg.Pkg.Path() == modPath+"/layer4"
 	})
 	c09ServerOwnsClose(c, r, "C09.R14")
+	c09SourceAddress(c, r, "C09.R15")
+	c09EmptyDatagram(c, r, "C09.R16")
+	c09CloseIdentity(c, r, "C09.R17")
+	c09DatagramNotDropped(c, r, "C09.R18")
+	c09UDPPoolLength(c, r, "C09.R19")
 	c05R7(c, r, "C09.R12")  // setting the deadline of a virtual connection never blocks (the association's handler, its queue and then the server loop would wait with it)
 	c05UDPDeadline(c, r, "C09.R13") // ... and arms the timer that wakes a waiting Read
 }
@@ -1077,7 +1083,7 @@ func c09R1(c *Ctx, r *Report, rule string) {
 }
 
 func c09R2(c *Ctx, r *Report, rule string) {
-	r.rule(rule, "association key agreement in servePacket: the table is looked up and filled with <datagram source address>.String(), cleaned with the strings received on the close-notification channel, and every notification sent on that channel is <the virtual connection's addr>.String()", 4)
+	r.rule(rule, "association key agreement in servePacket: the table is looked up and filled with <datagram source address>.String(), cleaned with the key received on the close-notification channel (the address string, or the address string of the connection received there), and every notification sent on that channel is <the virtual connection's addr>.String() or the connection itself", 4)
 	fn := c.Fn("layer4.(*Server).servePacket")
 	if fn == nil {
 		r.bad(rule, "layer4.(*Server).servePacket", "exists", "-", "function not found")
@@ -1129,7 +1135,7 @@ func c09R2(c *Ctx, r *Report, rule string) {
 				if _, ok := x.X.Type().Underlying().(*types.Map); ok {
 					n++
 					tbl = x.X
-					r.check(isAddrString(x.Index, "layer4.packet", "addr"), rule, name, fmt.Sprintf("lookup#%d", n), c.ipos(x), "looked up by the datagram's source address string", "the association table is looked up with a key that is not <datagram addr>.String()")
+					r.check(isAddrString(x.Index, "layer4.packet", "addr") || isAddrString(x.Index, "layer4.packetConn", "addr"), rule, name, fmt.Sprintf("lookup#%d", n), c.ipos(x), "looked up by the address string of the datagram's source (or of the connection that notified)", "the association table is looked up with a key that is not <datagram addr>.String()")
 				}
 			case *ssa.MapUpdate:
 				n++
@@ -1163,7 +1169,19 @@ func c09R2(c *Ctx, r *Report, rule string) {
 							fromSelect = true
 						}
 					}
-					r.check(fromSelect, rule, name, fmt.Sprintf("delete#%d", n), c.ipos(x), "deleted by the key received on the close-notification channel", "the association is deleted by a key that does not come from the close-notification channel")
+					// ... or is the address string of the connection received there
+					if call, ok := x.Call.Args[1].(*ssa.Call); ok && !fromSelect && isAddrString(call, "layer4.packetConn", "addr") {
+						if ld, ok := call.Call.Value.(*ssa.UnOp); ok {
+							if base, _, _, ok := fieldAddr(ld.X); ok {
+								for _, o := range origins(base, sliceOpts{}) {
+									if _, ok := o.V.(*ssa.Select); ok || o.Kind == "other" && strings.Contains(o.Desc, "Select") {
+										fromSelect = true
+									}
+								}
+							}
+						}
+					}
+					r.check(fromSelect, rule, name, fmt.Sprintf("delete#%d", n), c.ipos(x), "deleted by the key received on the close-notification channel (or the address of the connection received there)", "the association is deleted by a key that does not come from the close-notification channel")
 				}
 			}
 		}
@@ -1200,7 +1218,11 @@ func c09R2(c *Ctx, r *Report, rule string) {
 				}
 			}
 		}
-		r.check(val != nil && isAddrString(val, "layer4.packetConn", "addr"), rule, fname(u.fn), fmt.Sprintf("notify#%d", m), c.ipos(u.in), "notifies with the connection's address string", "the end-of-association notification does not carry <pc.addr>.String(): the association is never removed (or a wrong one is)")
+		isSelf := false // the connection notifies with itself (the loop derives the key from it)
+		if par, ok := val.(*ssa.Parameter); ok && len(u.fn.Params) > 0 && par == u.fn.Params[0] && strings.HasSuffix(typeStr(par.Type()), "layer4.packetConn") {
+			isSelf = true
+		}
+		r.check(val != nil && (isSelf || isAddrString(val, "layer4.packetConn", "addr")), rule, fname(u.fn), fmt.Sprintf("notify#%d", m), c.ipos(u.in), "notifies with the connection's address string (or the connection itself)", "the end-of-association notification does not carry <pc.addr>.String(): the association is never removed (or a wrong one is)")
 	}
 	if m == 0 {
 		r.bad(rule, "layer4.packetConn", "notify", "-", "no end-of-association notification found")
@@ -1737,6 +1759,8 @@ func c09R7(c *Ctx, r *Report, rule string) {
 
 func runC13(c *Ctx, r *Report) {
 	defer c13StatesAppended(c, r, "C13.R16")
+	defer c08R6(c, r, "C13.R17")               // the consumer reads the client's stream from its first byte: a connection of the wrapper starts with an empty matching buffer
+	defer c01TeeKeepsPipeOpen(c, r, "C13.R18") // a connection that falls through a tee to the wrapped listener is still read through the tee: the handler must not have closed the pipe
 	// R1
 	r.rule("C13.R1", "ListenerWrapper.Provision compiles its routes with listenerHandler as fallback", 1)
 	if fn := c.Fn("layer4.(*ListenerWrapper).Provision"); fn != nil {
@@ -2273,7 +2297,7 @@ func (c *Ctx) valueLikeGlobal(name string) (string, bool) {
 			return true
 		}
 		switch ts := typeStr(t); ts {
-		case "sync.Pool", "*regexp.Regexp", "encoding/binary.littleEndian", "encoding/binary.bigEndian", "github.com/caddyserver/caddy/v2.CtxKey", "*github.com/caddyserver/caddy/v2.UsagePool":
+		case "*regexp.Regexp", "encoding/binary.littleEndian", "encoding/binary.bigEndian", "github.com/caddyserver/caddy/v2.CtxKey", "*github.com/caddyserver/caddy/v2.UsagePool":
 			return true
 		}
 		switch u := t.Underlying().(type) {
